@@ -1,17 +1,9 @@
-# Per-property check composition: which harness binaries (parts) decide a property, in which build flavour.
+# Per-property check composition: tools/reg/<ID>.py defines CHECK = {...} (parts = harness binaries + build flavour).
+import os, glob, importlib.util
 HOOK_COMMITS = []
 NOT_APPLICABLE = {}
-CHECKS = {
- 'C19': {
-  'level': 'exploration',
-  'technique': 'bounded exhaustive enumeration of the input space on the real code (all days, all offsets, all short strings / edit neighbourhoods) against a reference calendar; ASan oracle',
-  'level_text': 'Complete enumeration of every day of years 1-9999 (x times of day), every second of 200 boundary days, every zone offset and spelling, and every string within 2 edits of 8 templates, executed on the real Date code; no sampling. Right level because the calendar arithmetic has a finite, enumerable domain.',
-  'level_note': 'Trusts g++/ASan, glibc gmtime_r as the independent calendar, TZ=UTC. Sub-second instants are covered on a boundary grid only.',
-  'rule': 'complete enumeration: every day 0001-01-01..9999-12-31 x times of day; every second of 200 days; every zone offset; 1-9 fraction digits; '
-          'all strings <=5 over the date alphabet and all 1-/2-edit neighbours and truncations of 8 date templates; distinct_nontrivial = distinct days / instants / offsets (parse strings are counted in evaluations only)',
-  'parts': [{'bin': 'c19_date', 'flavour': 'asan', 'deadline': {'quick': 600, 'thorough': 3000}}],
-  'bounds': {'quick': 'all 3652059 days x 3 times of day; 200 days x 86400 s; offsets -23:59..+23:59 x 3 spellings; parse edits: pairs within distance 6',
-             'thorough': 'all days x 10 times of day; 200 days x 86400 s with all formats; all edit pairs'},
-  'assumptions': ['TZ=UTC, LC_ALL=C', 'reference calendar = days-from-civil arithmetic cross-checked against glibc gmtime_r on every day', 'g++ -O2 + AddressSanitizer (slack after each NUL poisoned)'],
- },
-}
+CHECKS = {}
+for _f in sorted(glob.glob(os.path.join(os.path.dirname(os.path.abspath(__file__)), 'reg', 'C*.py'))):
+    _spec = importlib.util.spec_from_file_location(os.path.basename(_f)[:-3], _f)
+    _m = importlib.util.module_from_spec(_spec); _spec.loader.exec_module(_m)
+    CHECKS[os.path.basename(_f)[:-3]] = _m.CHECK
